@@ -37,3 +37,37 @@ Proof.
   destruct (Z.eqb_spec (- sa + - sb) 0) as [|_]; [lia|]. cbn [xneg xnum xden xexp]. f_equal; [|lia].
   destruct (Z.ltb_spec (- sa + - sb) 0), (Z.ltb_spec (sa + sb) 0); try reflexivity; lia.
 Qed.
+
+(* scaling the exact value by a power of ten scales the specified result, as long as both stay in the normal range and
+   neither overflows: same coefficient and flags, exponent shifted *)
+Definition shift_exact (E : exact) (j : Z) : exact := mkExact (xneg E) (xnum E) (xden E) (xexp E + j).
+Definition shift_sres (s : sres) (j : Z) : sres :=
+  match s with SInf ng => SInf ng | SFin ng m e => SFin ng m (e + j) end.
+Definition shift_sround (s : sround) (j : Z) : sround :=
+  mkSround (shift_sres (s_res s) j) (s_inexact s) (s_subnormal s) (s_overflow s).
+
+Theorem spec_scale p emin_ emax_ mode E j :
+  let k := mag_frac (xnum E) (xden E) + xexp E in
+  emin_ <= k - 1 -> emin_ <= k + j - 1 ->
+  s_overflow (spec_round_nz p emin_ emax_ mode E) = false ->
+  s_overflow (spec_round_nz p emin_ emax_ mode (shift_exact E j)) = false ->
+  spec_round_nz p emin_ emax_ mode (shift_exact E j) = shift_sround (spec_round_nz p emin_ emax_ mode E) j.
+Proof.
+  intros k H1 H2. unfold spec_round_nz, shift_exact. cbn [xneg xnum xden xexp]. fold k.
+  replace (mag_frac (xnum E) (xden E) + (xexp E + j)) with (k + j) by (unfold k; lia).
+  rewrite (Z.max_l (k - p)), (Z.max_l (k + j - p)) by lia.
+  replace (xexp E + j - (k + j - p)) with (xexp E - (k - p)) by lia.
+  destruct (scale_frac (xnum E) (xden E) (xexp E - (k - p))) as [n1 d1].
+  set (m := rndZ mode (xneg E) n1 d1).
+  replace (k + j - 1 <? emin_) with false by (symmetry; apply Z.ltb_ge; lia).
+  replace (k - 1 <? emin_) with false by (symmetry; apply Z.ltb_ge; lia).
+  destruct (ndigits m >? p).
+  - replace (k + j - p + 1) with (k - p + 1 + j) by lia.
+    destruct (negb (m / 10 =? 0) && (k - p + 1 + ndigits (m / 10) - 1 >? emax_)); cbn [s_overflow]; intros O1; try discriminate.
+    destruct (negb (m / 10 =? 0) && (k - p + 1 + j + ndigits (m / 10) - 1 >? emax_)); cbn [s_overflow]; intros O2; try discriminate.
+    reflexivity.
+  - replace (k + j - p) with (k - p + j) by lia.
+    destruct (negb (m =? 0) && (k - p + ndigits m - 1 >? emax_)); cbn [s_overflow]; intros O1; try discriminate.
+    destruct (negb (m =? 0) && (k - p + j + ndigits m - 1 >? emax_)); cbn [s_overflow]; intros O2; try discriminate.
+    reflexivity.
+Qed.
